@@ -260,28 +260,32 @@ StringDictionaryRPHTFC::StringDictionaryRPHTFC(IteratorDictString *it,
           codeSubstr = codeSubstr >> (ptrSubstr - TABLEBITSO);
           ptrSubstr = TABLEBITSO;
         } else {
-          if ((bucket == buckets) && (elements % bucketsize == 0)) {
-            // The last element is directly padded
-            codeSubstr = (codeSubstr << (TABLEBITSO - ptrSubstr));
-            ptrSubstr = TABLEBITSO;
-          } else {
-            // The first symbol encoding the internal strings is enough for
-            // padding because it uses, at least, 16 bits
+          // The symbols encoding the internal strings (bitsrp bits each)
+          // follow the header. The bucket is then padded with 0s, as
+          // insertEndingSubstr does (it is so for a header-only last bucket)
+          for (size_t i = ptrB; (i < ptrE) && (ptrSubstr < TABLEBITSO); i++) {
             uint remaining = TABLEBITSO - ptrSubstr;
-            uint codeword = intStrings[ptrB];
+            uint codeword = intStrings[i];
 
             if (remaining < bitsrp) {
               codeSubstr = (codeSubstr << remaining) |
                            (codeword >> (bitsrp - remaining));
+              ptrSubstr = TABLEBITSO;
             } else {
               codeSubstr = (codeSubstr << bitsrp) | codeword;
-              codeSubstr = codeSubstr << (remaining - bitsrp);
+              ptrSubstr += bitsrp;
             }
-
-            ptrSubstr = TABLEBITSO;
           }
         }
+
+        builderHT->insertEndingSubstr(&codeSubstr, &ptrSubstr, &textSubstr,
+                                      &lenSubstr);
       }
+
+      // Clearing decodeable substrings
+      textSubstr.clear();
+      lenSubstr.clear();
+      ptrSubstr = 0, codeSubstr = 0;
 
       // Processing the internal strings
       offset = 0;
@@ -297,7 +301,12 @@ StringDictionaryRPHTFC::StringDictionaryRPHTFC(IteratorDictString *it,
 
     delete[] tmp;
 
-    // bytesStrings++;
+    // The header decoding reads up to two bytes ahead
+    while ((bytesStrings + 2) > reservedStrings)
+      reservedStrings = Reallocate(&textStrings, reservedStrings);
+    textStrings[bytesStrings] = 0;
+    textStrings[bytesStrings + 1] = 0;
+    bytesStrings += 2;
     xblStrings.push_back(bytesStrings + 1);
     blStrings = new LogSequence(&xblStrings, bits(bytesStrings + 1));
 
